@@ -32,6 +32,8 @@ impl Monitor for CommitMonitor {
 	fn on_obs(&mut self, w: &World, o: &Obs, v: &mut Verdicts) {
 		match o {
 			Obs::Probe(p) => self.probes.push(p.clone()),
+			// a node that stopped in the middle of a probe never let its HTLC escape: the probe is void
+			Obs::Restarted { node, .. } => self.probes.retain(|p| p.judged || (p.node != *node && p.dst != *node)),
 			Obs::Tap(Ev::SignCounterparty { node, keys, c }) => {
 				if let Some(ft) = c.funding {
 					if let Some(ch) = w.chans.iter().find(|ch| ch.funding_txid() == Some(ft)) {
@@ -79,8 +81,8 @@ impl Monitor for CommitMonitor {
 						let fee = value_sat.saturating_sub(amounts[0] + amounts[1]);
 						let trimmed = (if amounts[other] == 0 { bal[other] } else { 0 }) + (if amounts[funder] == 0 { bal[funder] } else { 0 });
 						// the fee beyond trimmed dust is what the funder pays; it must come out of the funder's balance only
-						if amounts[funder] > 0 && bal[funder] - amounts[funder] + trimmed + 2 < fee {
-							v.violation("C01", "R6-coop-close", "closing fee not accounted for by the funder's balance", format!("chan {} fee {} funder paid {} trimmed {}", ci, fee, bal[funder] - amounts[funder], trimmed));
+						if amounts[funder] > 0 && bal[funder].saturating_sub(amounts[funder]) + trimmed + 2 < fee {
+							v.violation("C01", "R6-coop-close", "closing fee not accounted for by the funder's balance", format!("chan {} fee {} funder paid {} trimmed {}", ci, fee, bal[funder].saturating_sub(amounts[funder]), trimmed));
 						}
 					}
 				}
